@@ -21,6 +21,9 @@ type MatSpec struct {
 	Off    []int `json:"off"`     // substitution score of (i,j), i != j: Off[(5i+3j) mod len] (asymmetric)
 	GapRow []int `json:"gap_row"` // M[0][j]: gap in the reference opposite query letter j (<= 0), cycled
 	GapCol []int `json:"gap_col"` // M[i][0]: gap in the query opposite reference letter i (<= 0), cycled
+	// Scale multiplies every entry (0 and 1: none). Large scales give scores far outside 32 bits
+	// while every sum over the short sequences they are used with stays far inside 64.
+	Scale int `json:"scale,omitempty"`
 }
 
 // Case is one alignment problem.
@@ -135,7 +138,18 @@ func cyc(a []int, i int) int {
 
 // Build expands the matrix for an alphabet of n letters (index 0 is the gap).
 func (m MatSpec) Build(n int) [][]int {
+	scale := m.Scale
+	if scale == 0 {
+		scale = 1
+	}
 	out := make([][]int, n)
+	defer func() {
+		for i := range out {
+			for j := range out[i] {
+				out[i][j] *= scale
+			}
+		}
+	}()
 	for i := range out {
 		out[i] = make([]int, n)
 		for j := range out[i] {
@@ -176,7 +190,7 @@ func Indices(a alphabet.Alphabet, s string) []int {
 	return out
 }
 
-const negInf = -1 << 40
+const negInf = -1 << 56
 
 func max2(a, b int) int {
 	if a > b {
